@@ -385,7 +385,26 @@ def _configured_word(P, rec):
             if s.ev.get('callee') not in ('strcpy', 'memcpy', 'strncpy', 'strlcpy') or len(s.ev['args']) < 2:
                 continue
             d, src = s.ev['args'][0], s.ev['args'][1]
-            if not (isinstance(d, dict) and d.get('k') == 'mem' and d.get('field') == 'name' and d.get('rec') == rec and is_var(src) and src['name'] in f.params):
+            if not (isinstance(d, dict) and d.get('k') == 'mem' and d.get('field') == 'name' and d.get('rec') == rec):
+                continue
+            if not (is_var(src) and src['name'] in f.params):
+                # the storing function takes the configuration entry itself and tests its name where it copies it
+                gs = f.guards(s.bid)
+                # a local that holds the text (`name = entry->base.name`) stands for it
+                alts = {sx(src)}
+                if is_var(src) and f.single_def(src['name']) and isinstance(f.single_def(src['name'])[1], dict):
+                    alts.add(sx(f.single_def(src['name'])[1]))
+                for t in f.sites():
+                    if t.ev['k'] in ('store', 'decl'):
+                        v_ = t.ev.get('rhs') if t.ev['k'] == 'store' else t.ev.get('init')
+                        tg = t.ev['lhs']['name'] if t.ev['k'] == 'store' and is_var(t.ev.get('lhs')) else t.ev.get('var')
+                        if tg and isinstance(v_, dict) and sx(v_) in alts:
+                            alts.add(tg)
+                nonempty = any(isinstance(g[0], dict) and g[0].get('k') == 'idx' and sx(g[0].get('base')) in alts and const_of(g[0].get('index')) == 0 and g[1] == '!=' and const_of(g[2]) == 0 for g in gs)
+                noblank = any(isinstance(g[0], dict) and g[0].get('k') == 'callref' and g[0].get('callee') in ('strpbrk', 'strchr', 'strcspn') and g[0]['args'] and sx(g[0]['args'][0]) in alts and g[1] == '==' and const_of(g[2]) == 0 for g in gs)
+                n += 1
+                if not (nonempty and noblank):
+                    return False, 'the copy at %s stores %s unchecked' % (s.loc, sx(src))
                 continue
             pi = f.params.index(src['name'])
             for c in P.callers(f, may=True):
@@ -458,22 +477,32 @@ def configured_member_words(P, R, rule='C09.FMT.3'):
                     if const_of(ev.get('rhs')) == 0:
                         continue
                     stored = {sx(x) for x in leaves(g, ev.get('rhs'))}
-                    gs = g.guards(t.bid)
-                    cands = {}
-                    for q in gs:
+                    # path-sensitive: the test may sit in a predicate helper (folded) whose verdict the caller branches on
+                    exprs_ = {}
+
+                    def on_edge_(st, e, g=g):
+                        q = rules.edge_rel(e)
+                        if not q or not isinstance(q[0], dict):
+                            return st
                         l = q[0]
-                        if not isinstance(l, dict):
-                            continue
                         if l.get('k') == 'idx' and const_of(l.get('index')) == 0 and q[1] == '!=' and const_of(q[2]) == 0:
-                            cands.setdefault(sx(l['base']), [l['base'], False, set()])[1] = True
+                            exprs_[sx(l['base'])] = l['base']
+                            return st | frozenset([(sx(l['base']), 'ne')])
                         if l.get('k') == 'callref' and l.get('callee') in ('strpbrk', 'strchr') and l.get('args') and q[1] == '==' and const_of(q[2]) == 0:
                             a0, a1 = l['args'][0], l['args'][1]
                             cs = set(a1['v']) if a1.get('k') == 'str' else {chr(const_of(a1))} if isinstance(const_of(a1), int) else set()
-                            cands.setdefault(sx(a0), [a0, False, set()])[2] |= cs
-                    ok = False
-                    for key_, (e_, nonempty, chars) in cands.items():
-                        if nonempty and {' ', '\n'} <= chars and stored & {sx(x) for x in leaves(g, e_)}:
-                            ok = True
+                            exprs_[sx(a0)] = a0
+                            return st | frozenset((sx(a0), 'ch', c_) for c_ in cs)
+                        return st
+                    before_, _, _, _ = g.forward(frozenset(), None, on_edge_)
+                    sts = before_.get(t.key, set())
+                    ok = bool(sts)
+                    for st in sts:
+                        good = False
+                        for key_ in {x[0] for x in st}:
+                            if (key_, 'ne') in st and (key_, 'ch', ' ') in st and (key_, 'ch', '\n') in st and key_ in exprs_ and stored & {sx(x) for x in leaves(g, exprs_[key_])}:
+                                good = True
+                        ok = ok and good
                     n += 1
                     R.ob(rule, ok, t, 'the configured text stored in %s.%s (sent as the word %s of a message) was checked to be one non-empty word free of blanks and line ends' % (rec, ev['lhs']['field'], d['field']),
                          key='word-member-configured:%s:%s' % (d['field'], ev['lhs']['field']))
